@@ -181,7 +181,8 @@ def make_wrapper(world, twins, contract, target, orig, is_static, needs_self):
                                 if e.startswith("ghost:"):
                                     continue
                                 if not ctx.eval(e, env, st["olds"].get(e)):
-                                    REC.add(Violation("post-exc", short, f"{r.exc}:ensures#{k}", e, call=_describe(env)))
+                                    lab = (r.labels[k] if k < len(r.labels) and r.labels[k] else f"ensures#{k}")
+                                    REC.add(Violation("post-exc", short, f"{r.exc}:{lab}", e, call=_describe(env)))
             selfobj = st["self"]
             if selfobj is not None:
                 for f, v0 in st["frame"].items():
